@@ -467,7 +467,9 @@ class Orientation(Misorientation):
         False
         """
         O = self.unit
-        if lazy:
+        # Nothing to compute in chunks if one of the operands is empty
+        # (Dask cannot take the maximum over no symmetry-related values)
+        if lazy and O.size * other.size > 0:
             dot_products = O._dot_outer_dask(other, chunk_size=chunk_size)
             # Round because some dot products are slightly above 1
             n_decimals = np.finfo(dot_products.dtype).precision
